@@ -19,7 +19,29 @@ class ScaledLinear(nn.Linear):
         return nn.functional.linear(x, self.weight * 3.0, self.bias)
 
 
+class PackedLSTM(nn.Module):
+    """a DPLSTM fed with a PackedSequence built with enforce_sorted=False; the length of a sequence is a function of that sample alone"""
+
+    def __init__(self):
+        super().__init__()
+        from opacus.layers import DPLSTM
+        self.rnn = DPLSTM(3, 4, batch_first=True)
+        self.out = nn.Linear(4, 2)
+
+    @staticmethod
+    def lengths(x):
+        return 1 + (x[:, 1:, 0] > 0).sum(dim=1)
+
+    def forward(self, x):
+        from torch.nn.utils.rnn import pack_padded_sequence
+        p = pack_padded_sequence(x, self.lengths(x).cpu(), batch_first=True, enforce_sorted=False)
+        _, (h, _) = self.rnn(p)
+        return self.out(h[-1])
+
+
 def make_model(kind, rank):
+    if kind == 'rnnpack':
+        return PackedLSTM(), (4, 3), 'float'
     if kind == 'sublinear':
         return nn.Sequential(ScaledLinear(4, 5), nn.Tanh(), nn.Linear(5, 3)), (4,), 'float'
     if kind == 'mlp':
@@ -136,7 +158,12 @@ def sens_case(case):
         bad.append('removing example %d moves the pre-noise sum by %.6g > bound %.6g' % (i, tot, bound))
     if case['clipping'] == 'per_layer' and any(x > case['C'] * (1 + 1e-9) + 1e-12 for x in per):
         bad.append('per-layer: a tensor moved by %.6g > its bound %.6g' % (max(per), case['C']))
-    return {'bad': bad, 'delta': tot, 'bound': bound}
+    extra = {}
+    if case['model'] == 'rnnpack':
+        lens = [int(v) for v in PackedLSTM.lengths(X)]
+        extra['lens_sorted'] = all(lens[j] >= lens[j + 1] for j in range(len(lens) - 1)) and \
+            all(a >= b for a, b in zip([lens[j] for j in keep], [lens[j] for j in keep][1:]))
+    return dict({'bad': bad, 'delta': tot, 'bound': bound}, **extra)
 
 
 def true_grads(model, X, T):
